@@ -146,6 +146,43 @@ def check(R):
         R.expect('P10', pt.fn, 'the acknowledgement put into the outgoing header is RecvWindow::pending_ack()', all(S + 'RecvWindow::pending_ack' in src_calls(prims.sources(pt, t.d['a'][1])) for t in acks),
                  'set_ack(pending_ack())', 'the header ACK no longer derives from pending_ack(): header and window bookkeeping can disagree')
 
+        # the window we advertise leaves room for one complete, not yet fetched message next to a full window of segments (ACKs are
+        # withheld while such a message sits in the buffer): window(segment) = MAX_MESSAGE_SIZE / segment / k with k >= 2, capped at 255
+        iw = R.body(S + 'Session::initial_window_size')
+        rd_ = [(bb, k, pl_) for bb, k, pl_ in prims.result_defs(iw)]
+        key = None
+        for i, j, st in iw.stmts():
+            if st[0] == [0] or (len(st[0]) == 1 and st[1].get('op') == 'cast'):
+                key = p7.expr_key(iw, st[1]['a'][0]) if st[1].get('a') else key
+        import re as _re
+
+        def _divs(e):
+            # peel `Div(a,b)` layers: returns (innermost dividend, [divisors])
+            ds = []
+            while e.startswith('Div(') and e.endswith(')'):
+                inner, depth, cut = e[4:-1], 0, None
+                for ix, ch in enumerate(inner):
+                    depth += ch == '('
+                    depth -= ch == ')'
+                    if ch == ',' and depth == 0:
+                        cut = ix
+                if cut is None:
+                    break
+                ds.append(inner[cut + 1:])
+                e = inner[:cut]
+            return e, ds
+        mm = _re.fullmatch(r'min\((.*),(\d+)\)', key or '')
+        base, ds = _divs(mm.group(1)) if mm else ('', [])
+        kconst = 1
+        for d_ in ds:
+            if d_.isdigit():
+                kconst *= int(d_)
+        nvar = [d_ for d_ in ds if not d_.isdigit()]
+        if not mm or not (base.isdigit() or base == 'MAX_MESSAGE_SIZE') or len(nvar) != 1:
+            raise AnchorLost(f'initial_window_size: expression {key!r} is not of the form min(MAX_MESSAGE_SIZE / segment [/ k], cap)')
+        R.expect('P6', iw.fn, 'the advertised window covers at most half of the reassembly buffer', kconst >= 2 and int(mm.group(2)) <= 255,
+                 f'{key}', f'{key}: a full window of segments plus one unfetched message no longer fits the ring buffer - a peer that respects the window has a legitimate segment refused')
+
     # ---- b --------------------------------------------------------------------
     with R.clause('b'):
         bodies = surface(F, 'C18')
